@@ -61,10 +61,19 @@ def case_key(c):
     return json.dumps([c["fork"], [[o["ns"], o["file"], o.get("more"), o.get("tree")] for o in c["log"]]], sort_keys=True)
 
 
-def gen(ctx, name, text, simulate=None, depth=None, seed=None, workers=None, timeout=1500):
+def gen(ctx, name, text, simulate=None, depth=None, seed=None, workers=None, timeout=3000, budget=None):
     r = ctx.tlc("GitHistory", name, files={name: text}, simulate=simulate, depth=depth, seed=seed,
-                workers=workers, timeout=timeout, tag=name)
-    return [v[0] for v in prints(r, "CASE")], r
+                workers=workers, timeout=timeout, tag=name, heap="2g" if ctx.thorough else "1g")
+    cases = [v[0] for v in prints(r, "CASE")]
+    # the raw TLC output and the decoded prints of a big GEN run are large: keep only the cases
+    r["out"] = ""
+    r["prints"] = []
+    if budget is not None:
+        n = len(cases)
+        d = dedupe(cases)
+        r["gen_emitted"], r["gen_distinct"] = n, len(d)
+        cases = stratify(d, budget, ctx.seed)
+    return cases, r
 
 
 def dedupe(cases):
@@ -159,7 +168,7 @@ def probe_mode(ctx):
     return "twopass" if st == {(4, "added"), (8, "noop")} else "greedy"
 
 
-def run_parallel(jobs, width=8):
+def run_parallel(jobs, width=6):
     """jobs: list of zero-argument callables (TLC runs); returns their results in order, re-raising the first failure."""
     from concurrent.futures import ThreadPoolExecutor
     with ThreadPoolExecutor(max_workers=width) as ex:
